@@ -138,7 +138,7 @@ def build_and_audit(pid, tier, theorems_expected=None):
             b.log += r.stdout
             cur = None
             text = r.stdout
-            for m in re.finditer(r"'([^']+)' (depends on axioms: \[([^\]]*)\]|does not depend on any axioms)", text, re.S):
+            for m in re.finditer(r"^'([^\n]+?)' (depends on axioms: \[([^\]]*)\]|does not depend on any axioms)", text, re.S | re.M):
                 ax = [a.strip() for a in (m.group(3) or "").replace("\n", " ").split(",") if a.strip()]
                 b.axioms[m.group(1)] = ax
                 extra = [a for a in ax if a not in STD_AXIOMS]
